@@ -4,6 +4,7 @@ configurations, and generators of well-formed tables / grids (DESIGN.md §3)."""
 import datetime
 import io
 import logging
+import json
 import math
 import re
 import warnings
@@ -144,6 +145,11 @@ class FixerObs(dict):
         if not isinstance(other, dict):
             return NotImplemented
         a, b = dict(self), dict(other)
+        # the log of one read is compared as a bag: in which order the columns of a table are parsed (hence in which
+        # order their messages are logged) is promised by nothing
+        for d in (a, b):
+            if isinstance(d.get("msgs"), list):
+                d["msgs"] = sorted(json.dumps(m, sort_keys=True, default=str) for m in d["msgs"])
         if ("errors" in a) != ("errors" in b):
             for d in (a, b):
                 if "errors" in d:
